@@ -83,6 +83,10 @@ func (round *round3) Start() *tss.Error {
 				ch <- vssOut{err, nil}
 				return
 			}
+			if len(PjVs) != round.Threshold()+1 {
+				ch <- vssOut{errors.New("de-commitment does not contain threshold+1 points"), nil}
+				return
+			}
 			modProof, err := r2msg2.UnmarshalModProof()
 			if err != nil && round.Parameters.NoProofMod() {
 				// For old parties, the modProof could be not exist
